@@ -47,6 +47,7 @@ func randCase(c *Ctx, s string) string {
 // start characters ("identifiers may start with any configured letter, Latin or not"); two separate
 // registrations over the built-in 0..0xffff symbol range, so the latest-registration rule matters
 var c13CfgOps = []cfgOp{{k: "D", lo: 0x400, hi: 0x4ff, x: "w"}, {k: "D", lo: 0x370, hi: 0x3ff, x: "w"}}
+var c13Sym4Ops = []cfgOp{{k: "Y", v: []rune("<!--"), typ: tokenizers.Symbol}, {k: "Y", v: []rune("=:=:"), typ: tokenizers.Symbol}, {k: "Y", v: []rune("->>>>"), typ: tokenizers.Symbol}}
 var c13SymOps = []cfgOp{{k: "Y", v: []rune("=:="), typ: tokenizers.Symbol}, {k: "Y", v: []rune("..."), typ: tokenizers.Symbol}}
 var wordStartCfg = []rune("abzAZxy_éÀÿЖцλΔ")
 
@@ -232,6 +233,11 @@ func runLexCase(c *Ctx, kind string, lexs []lexeme) {
 	if kind == "E" {
 		op = tokcLine("e", 0, c13CfgOps, input)
 		ts, st = tokenizeCfg("e", 0, c13CfgOps, input)
+	} else if kind == "Y4" || kind == "Z4" {
+		// user-registered symbols of four and five characters whose longer proper prefixes are not symbols
+		k := map[string]string{"Y4": "e", "Z4": "g"}[kind]
+		op = tokcLine(k, 0, c13Sym4Ops, input)
+		ts, st = tokenizeCfg(k, 0, c13Sym4Ops, input)
 	} else if kind == "Y" || kind == "Z" {
 		// a user-registered three-character symbol whose two-character prefix is not a symbol
 		k := map[string]string{"Y": "e", "Z": "g"}[kind]
@@ -335,6 +341,22 @@ func propC13(c *Ctx) {
 		runLexCase(c, k, []lexeme{{"a", W}, {"=", S}, {":", S}, {" ", Sp}, {"b", W}})
 		runLexCase(c, k, []lexeme{{"=", S}, {":", S}})
 		runLexCase(c, k, []lexeme{{"=:=", S}, {"=", S}, {":", S}})
+	}
+	I := tokenizers.Integer
+	for _, k := range []string{"Y4", "Z4"} {
+		runLexCase(c, k, []lexeme{{"a", W}, {" ", Sp}, {"<!--", S}, {" ", Sp}, {"b", W}})
+		runLexCase(c, k, []lexeme{{"a", W}, {" ", Sp}, {"<", S}, {"!", S}, {"-", S}, {" ", Sp}, {"b", W}})
+		runLexCase(c, k, []lexeme{{"a", W}, {"<", S}, {"!", S}, {" ", Sp}, {"b", W}})
+		runLexCase(c, k, []lexeme{{"<", S}, {"!", S}, {"-", S}})
+		runLexCase(c, k, []lexeme{{"<", S}, {"!", S}, {"x", W}})
+		runLexCase(c, k, []lexeme{{"=", S}, {":", S}, {"=", S}, {" ", Sp}, {"1", I}})
+		runLexCase(c, k, []lexeme{{"=", S}, {":", S}, {"=", S}, {"x", W}})
+		runLexCase(c, k, []lexeme{{"x", W}, {"=", S}, {":", S}, {"=", S}, {"1", I}})
+		runLexCase(c, k, []lexeme{{"=:=:", S}, {"=", S}, {":", S}})
+		runLexCase(c, k, []lexeme{{"=:=:", S}, {"=", S}, {":", S}, {"=", S}})
+		runLexCase(c, k, []lexeme{{"<!--", S}, {"<", S}, {"!", S}, {"-", S}, {" ", Sp}, {"<", S}, {"!", S}})
+		runLexCase(c, k, []lexeme{{"->>>>", S}, {" ", Sp}, {"a", W}})
+		runLexCase(c, k, []lexeme{{"a", W}, {" ", Sp}, {"<", S}, {"!", S}, {"-", S}, {"<!--", S}})
 	}
 	c.Notes = append(c.Notes, "random lexeme sequences (1..10 lexemes; thorough also 50..250) from the lexical grammar of the generic and the expression tokenizer: identifiers (Latin-1 and non-Latin), keywords in random case, integers, decimals (1.5 .5 1.), scientific numbers, quoted strings with doubled quotes / other quote / newlines / non-ASCII, comments, whitespace runs, every multi-character symbol, single-character symbols; neighbours are separated by whitespace unless a conservative `cannot merge` predicate allows direct adjacency")
 }
